@@ -135,12 +135,11 @@ def judge_tree(ctx, case, resp):
             f = mismatch(kind, text, tokens, entry, sut, err, T, "the minimally parenthesised rendering does not parse back to its tree")
         elif kind.startswith("drop") and exp != T and sut == T:
             f = mismatch(kind, text, tokens, entry, sut, err, exp, "a needed pair of parentheses was removed and the tree did not change")
+        elif kind == "layout" and canon.get(tuple(v[1]), (sut, err == "")) != (sut, err == ""):
+            f = mismatch(kind, text, tokens, entry, sut, err, canon[tuple(v[1])][0],
+                         "white space / comments between the same tokens changed the result (expected = result of the one-blank layout)")
         elif sut != exp:
             f = mismatch(kind, text, tokens, entry, sut, err, exp, "the parser and the grammar's binding rules disagree")
-        elif kind == "layout":
-            base = canon.get(tuple(v[1]))
-            if base is not None and base != (sut, err == ""):
-                f = mismatch(kind, text, tokens, entry, sut, err, base[0], "the layout changed the result")
         if len(v) <= 2 or not v[2]:
             canon[tuple(v[1])] = (sut, err == "")
         if f is not None:
